@@ -1047,6 +1047,7 @@ def check_C20(ctx):
                                                                    "Currents": TlaSet(["given"]), "ArgForms": ["eq", "sep"]}}],
                 invariants=["Inv_C20"], ops=[], cli=True,
                 cfg={"ds": ds, "de": de, "tl": "tl", "rm": "rm", "off": "+09:00", "now": [19000, 3600], "targets": []}, nontrivial=None)
+    cli_big_job(ctx)
     # growth beyond C20: no (usable) --time-limited-current, the process reads the system clock; the harness reads it before
     # and after the run, Conform!ConfWallClock compares with the library result (reported as DRIFT, never as a verdict)
     ctx.job("cli-wallclock", gens=[{"base": "GenCli", "consts": {"Docs": [Chars(d) for d in (CLI_DOCS_DEFAULT[1:2] + CLI_DOCS_DEFAULT[3:5])],
@@ -1124,3 +1125,21 @@ def pump_job(ctx, invariants, ops, units, ks, cores=(0, 1), name="pumped"):
              "consts": {"Units": [[Chars(PUMP_UNITS[u][0]), Chars(PUMP_UNITS[u][1])] for u in units],
                         "Cores": [Chars(PUMP_CORES[c]) for c in cores], "Ks": TlaSet(list(ks))}}]
     ctx.job(name, gens=gens, invariants=invariants, ops=ops, cfg={"ds": "<", "de": ">"}, nontrivial=has_ready, shards=8)
+
+
+def cli_big_job(ctx):
+    """documents beyond every buffer size of a pipe or a chunked reader (8 KiB, 64 KiB), multi-byte characters at every
+    alignment, through standard input and through a file: the command must return what the library returns"""
+    from vlib import TlaSet
+    q = ctx.quick
+
+    def cli(inp, outp, mode, js):
+        return {"op": "cli", "input": inp, "output": outp, "mode": mode, "json": js, "targets_via": "flags", "tz": "unset", "lang": "",
+                "now_zone_min": 0, "file_targets": [], "flag_targets": [Chars("a")], "omit": []}
+    ops = [{"op": "clean"}, cli("stdin", "stdout", "clean", False), cli("file", "file", "clean", False),
+           {"op": "list_json"}, cli("stdin", "stdout", "list", True)]
+    units = [[Chars("é"), Chars("あ")], [Chars("aé"), Chars("😀b")], [Chars("p\x01; é\n"), Chars("")]]
+    gens = [{"base": "GenPump", "workers": 2,
+             "consts": {"Units": units, "Cores": [Chars(PUMP_CORES[0])], "Ks": TlaSet([3000, 9000] if q else [1500, 3000, 9000, 25000])}}]
+    ctx.job("cli-big", gens=gens, invariants=["Inv_C20"], ops=ops, cli=True,
+            cfg={"ds": "<", "de": ">", "tl": "tl", "rm": "rm", "off": "+00:00", "now": [19000, 0], "targets": ["a"]}, nontrivial=None, shards=6)
